@@ -159,6 +159,29 @@ def build_case(case):
     return t, np.array(trip), np.array(quart), np.array(atags), np.array(ttags), rng
 
 
+_REG = set()
+
+
+def wc_min(base, *suffixes):
+    """witness class = base + suffixes, collapsed onto an already reported coarser class (cases are
+    enumerated simplest first, so one root cause keeps one key and later, more special inputs that
+    contain it do not add keys)"""
+    for i in range(len(suffixes) + 1):
+        cand = base + "".join(suffixes[:i])
+        if cand in _REG:
+            return cand
+    full = base + "".join(suffixes)
+    _REG.add(full)
+    return full
+
+
+def _cc_suffix(cc):
+    """cell classes ordered by generality: the no-cell kernel, then periodic=False (same kernel), the
+    orthorhombic kernel, the triclinic kernel on reduced, then unreduced cells"""
+    return {"no-cell": (":no-cell",), "periodic=False": (":no-cell", ":periodic=False"), "orthorhombic": (":orthorhombic",),
+            "triclinic-reduced": (":triclinic",), "triclinic-unreduced": (":triclinic", ":unreduced")}[cc]
+
+
 def _tag_class(tag):
     if tag in ("generic", "right", "perpendicular"):
         return ""
@@ -209,21 +232,23 @@ def eval_geometry_case(chks, case):
                 a = A[f]
                 bad_rng = ~np.isfinite(a) | (a < 0) | (a > PI + 1e-6)
                 bad_val = defined & (np.abs(a - sa) > tol)
-                _report(chk_a, "compute_angles", path, cc, pl, tags, bad_rng, bad_val, trip_all, a, sa, tol, info, f,
-                        "angle outside [0, pi] or not finite", "angle differs from acos(u.v/|u||v|) on minimum-image bond vectors",
-                        nontrivial=(family, placement, periodic, opt))
+                failed = _report(chk_a, "compute_angles", path, cc, pl, tags, bad_rng, bad_val, trip_all, a, sa, tol, info, f,
+                                 "angle outside [0, pi] or not finite", "angle differs from acos(u.v/|u||v|) on minimum-image bond vectors",
+                                 nontrivial=(family, placement, periodic, opt))
                 # reversal: rows [0,nt) vs [nt,2nt) and the extra rows
                 rev = np.abs(np.concatenate([a[:nt] - a[nt:2 * nt], a[2 * nt:2 * nt + 6] - a[2 * nt + 6:]]))
                 tol_r = 2 * np.concatenate([tol[:nt], tol[2 * nt:2 * nt + 6]])
                 def_r = np.concatenate([defined[:nt], defined[2 * nt:2 * nt + 6]])
                 mir = np.abs(Am[f] - a)
                 m_ = def_r & (rev > tol_r)
-                if m_.any():
+                if failed:
+                    pass  # value clause already violated for this kernel: the symmetry clauses add nothing
+                elif m_.any():
                     k = int(np.argmax(m_))
-                    chk_s.fail("angle-reversal-invariant", f"compute_angles:{path}:{cc}{pl}", f"angle(a,b,c) != angle(c,b,a) by {rev[k]:.3g} rad [family={family}]", dict(info, frame=f))
+                    chk_s.fail("angle-reversal-invariant", wc_min(f"compute_angles:{path}", *_cc_suffix(cc), pl), f"angle(a,b,c) != angle(c,b,a) by {rev[k]:.3g} rad [family={family}]", dict(info, frame=f))
                 elif (defined & (mir > 2 * tol)).any():
                     k = int(np.argmax(defined & (mir > 2 * tol)))
-                    chk_s.fail("angle-mirror-invariant", f"compute_angles:{path}:{cc}{pl}", f"angle changes under inversion of all coordinates by {mir[k]:.3g} rad", dict(info, frame=f))
+                    chk_s.fail("angle-mirror-invariant", wc_min(f"compute_angles:{path}", *_cc_suffix(cc), pl), f"angle changes under inversion of all coordinates by {mir[k]:.3g} rad", dict(info, frame=f))
                 else:
                     chk_s.ok(nontrivial=("angle", family, placement, periodic, opt))
                 # ---- dihedrals
@@ -234,20 +259,22 @@ def eval_geometry_case(chks, case):
                 d = D[f]
                 bad_rng = ~np.isfinite(d) | (np.abs(d) > PI + 1e-6)
                 bad_val = defined & (L.angdiff(d, sd) > tol)
-                _report(chk_d, "compute_dihedrals", path, cc, pl, tags, bad_rng, bad_val, quart_all, d, sd, tol, info, f,
-                        "dihedral outside [-pi, pi] or not finite", "dihedral differs from the IUPAC atan2 torsion on minimum-image bond vectors",
-                        nontrivial=(family, placement, periodic, opt))
+                failed = _report(chk_d, "compute_dihedrals", path, cc, pl, tags, bad_rng, bad_val, quart_all, d, sd, tol, info, f,
+                                 "dihedral outside [-pi, pi] or not finite", "dihedral differs from the IUPAC atan2 torsion on minimum-image bond vectors",
+                                 nontrivial=(family, placement, periodic, opt))
                 rev = np.concatenate([L.angdiff(d[:nq], d[nq:2 * nq]), L.angdiff(d[2 * nq:2 * nq + 6], d[2 * nq + 6:])])
                 tol_r = 2 * np.concatenate([tol[:nq], tol[2 * nq:2 * nq + 6]])
                 def_r = np.concatenate([defined[:nq], defined[2 * nq:2 * nq + 6]])
                 mir = L.angdiff(Dm[f], -d)
                 m_ = def_r & (rev > tol_r)
-                if m_.any():
+                if failed:
+                    pass
+                elif m_.any():
                     k = int(np.argmax(m_))
-                    chk_s.fail("dihedral-reversal-invariant", f"compute_dihedrals:{path}:{cc}{pl}", f"dihedral(a,b,c,d) != dihedral(d,c,b,a) by {rev[k]:.3g} rad [family={family}]", dict(info, frame=f))
+                    chk_s.fail("dihedral-reversal-invariant", wc_min(f"compute_dihedrals:{path}", *_cc_suffix(cc), pl), f"dihedral(a,b,c,d) != dihedral(d,c,b,a) by {rev[k]:.3g} rad [family={family}]", dict(info, frame=f))
                 elif (defined & (mir > 2 * tol)).any():
                     k = int(np.argmax(defined & (mir > 2 * tol)))
-                    chk_s.fail("dihedral-mirror-negates", f"compute_dihedrals:{path}:{cc}{pl}", f"dihedral of the inverted structure is not the negative (off by {mir[k]:.3g} rad) [family={family}]", dict(info, frame=f))
+                    chk_s.fail("dihedral-mirror-negates", wc_min(f"compute_dihedrals:{path}", *_cc_suffix(cc), pl), f"dihedral of the inverted structure is not the negative (off by {mir[k]:.3g} rad) [family={family}]", dict(info, frame=f))
                 else:
                     chk_s.ok(nontrivial=("dihedral", family, placement, periodic, opt))
 
@@ -267,19 +294,22 @@ def _defined(vecs, bx, family):
 
 
 def _report(chk, func, path, cc, pl, tags, bad_rng, bad_val, rows, obs, exp, tol, info, f, msg_rng, msg_val, nontrivial):
+    """returns True when this (function, path, cell class) failed (the symmetry clauses are then implied)"""
     if bad_rng.any():
         k = int(np.argmax(bad_rng))
-        chk.fail("range", f"{func}:{path}:{cc}{_tag_class(tags[k])}", f"{msg_rng}: {obs[k]!r} for atoms {rows[k].tolist()} [family={info['family']} {info['placement']}]",
+        chk.fail("range", wc_min(f"{func}:{path}", *_cc_suffix(cc), _tag_class(tags[k])), f"{msg_rng}: {obs[k]!r} for atoms {rows[k].tolist()} [family={info['family']} {info['placement']}]",
                  dict(info, frame=f, row=rows[k].tolist()), observed=obs[k], expected=exp[k])
-    elif bad_val.any():
+        return True
+    if bad_val.any():
         # prefer a generic-geometry witness
         order = sorted(np.nonzero(bad_val)[0], key=lambda i: (_tag_class(tags[i]) != "", i))
         k = int(order[0])
-        chk.fail("equals-definition", f"{func}:{path}:{cc}{pl}{_tag_class(tags[k])}",
+        chk.fail("equals-definition", wc_min(f"{func}:{path}", *_cc_suffix(cc), pl, _tag_class(tags[k])),
                  f"{msg_val}: got {obs[k]:.7f}, definition {exp[k]:.7f}, tol {tol[k]:.2e} for atoms {rows[k].tolist()} [family={info['family']} {info['placement']} frame={f}]",
                  dict(info, frame=f, row=rows[k].tolist()), observed=obs[k], expected=exp[k])
-    else:
-        chk.ok(nontrivial=nontrivial, sample={"family": info["family"], "placement": info["placement"], "rows": len(rows), "max_tol": float(np.max(tol))})
+        return True
+    chk.ok(nontrivial=nontrivial, sample={"family": info["family"], "placement": info["placement"], "rows": len(rows), "max_tol": float(np.max(tol))})
+    return False
 
 
 # ------------------------------------------------------------------------------------------------
@@ -427,7 +457,7 @@ def eval_named_case(chks, case):
             missing = [r for r in exp if r not in got_l]
             reason = "rows-not-in-residue-order" if not extra and not missing else ("unexpected-quartet" if extra else "missing-quartet")
             show = (extra or missing or got_l)[:2]
-            chk_i.fail("documented-atoms", f"indices_{which}:{variant}:{reason}",
+            chk_i.fail("documented-atoms", wc_min(f"indices_{which}:{reason}", "" if variant == "plain" else ":" + variant),
                        f"indices_{which}: {reason}: {[[str(top.atom(i)) for i in r] for r in show]} (chains: {[[r[0] + str(r[1]) for r in c] for c in spec]})",
                        info, observed=got_l[:8], expected=exp[:8])
         else:
@@ -443,19 +473,12 @@ def eval_named_case(chks, case):
                 if not len(got_l):
                     chk_v.ok()
                     continue
-                bad = False
-                for f in range(2):
-                    bx = None if (fam == "none" or not periodic) else np.asarray(t.unitcell_vectors[f], dtype=np.float64)
-                    sd, b1, b2, b3 = L.dihedrals(t.xyz[f].astype(np.float64), got_l, bx)
-                    tol = L.dihedral_tol(b1, b2, b3, 4 * float(L.ulp32(2.0)))
-                    ok_rows = (tol <= 0.05) & (_defined(b1, bx, fam) & _defined(b2, bx, fam) & _defined(b3, bx, fam))
-                    m_ = ok_rows & (L.angdiff(val[f], sd) > tol)
-                    if m_.any():
-                        bad = True
-                        k = int(np.argmax(m_))
-                        chk_v.fail("equals-definition", f"compute_{which}:{'opt' if opt else 'reference'}:{'periodic' if bx is not None else 'non-periodic'}",
-                                   f"compute_{which} value {val[f][k]:.6f} != IUPAC torsion {sd[k]:.6f} over its own quartet", dict(info, periodic=periodic, opt=opt))
-                if not bad:
+                ref = np.asarray(md.compute_dihedrals(t, np.asarray(got_l), periodic=periodic, opt=opt), dtype=np.float64)
+                if (L.angdiff(val, ref) > 1e-6).any():
+                    chk_v.fail("equals-compute_dihedrals", wc_min(f"compute_{which}", "" if opt else ":reference", ":periodic" if (periodic and fam != "none") else ""),
+                               f"compute_{which} differs from compute_dihedrals over indices_{which}", dict(info, periodic=periodic, opt=opt),
+                               observed=val.ravel()[:4], expected=ref.ravel()[:4])
+                else:
                     chk_v.ok(nontrivial=(which, fam, periodic, opt))
 
 
@@ -482,7 +505,7 @@ def _checks(sz):
                                "randomly deleted atoms, ACE/NME caps, water/ion residues in and after chains, shuffled atom order, numbering gaps",
                                "returned index array == list of documented quartets (IUPAC-IUB tables in this module), neighbours from the same chain, one row per residue having all atoms, in residue order"),
         "named-values": Check("named-torsion-values", "md.compute_phi/psi/omega/chi1..chi5", "same topologies, random coordinates, no cell / orthorhombic / triclinic, periodic x opt",
-                              "indices equal indices_*; values equal the IUPAC torsion (spec) over those quartets"),
+                              "indices equal indices_*; values equal md.compute_dihedrals over those quartets (the statement: 'the named torsions ARE these dihedrals over the documented atoms'; compute_dihedrals itself is pinned to the spec above)"),
     }
 
 
@@ -494,17 +517,18 @@ def _cases(tier, seed):
         sz = dict(n_frames=3, n_mol=6, n_at=6, seeds=6, named_seeds=80)
         seeds = [seed * 1000 + 100 + k for k in range(6)]
     geo = []
-    for s in seeds:
-        for pl in PLACEMENTS:
-            for fam in FAMILIES + ["none"]:
+    for pl in PLACEMENTS:  # simplest first: whole molecules inside the cell, no cell before any cell
+        for s in seeds:
+            for fam in ["none"] + FAMILIES:
                 if fam == "none" and pl != "inside":
                     continue
                 geo.append(dict(family=fam, placement=pl, seed=s, n_frames=sz["n_frames"], n_mol=sz["n_mol"], n_at=sz["n_at"]))
-    named = [dict(variant=v, seed=seed * 1000 + k) for k in range(sz["named_seeds"]) for v in VARIANTS]
+    named = [dict(variant=v, seed=seed * 1000 + k) for v in VARIANTS for k in range(sz["named_seeds"])]
     return geo, named, sz
 
 
 def run(tier, seed, hint):
+    _REG.clear()
     geo, named, sz = _cases(tier, seed)
     chks = _checks(sz)
     for case in geo:
@@ -515,6 +539,7 @@ def run(tier, seed, hint):
 
 
 def replay(payload):
+    _REG.clear()
     inp = payload.get("input") or payload.get("failing_input")
     chks = _checks(dict(n_frames=inp.get("n_frames"), n_mol=inp.get("n_mol"), n_at=inp.get("n_at"), seeds=1, named_seeds=1))
     if inp.get("kind") == "named":
